@@ -521,3 +521,33 @@ def vec_macro_elems(fn, operand):
             if "p" in st["lhs"] and st["lhs"]["l"] in (vals | refs | {boxl}) and st["rv"]["k"] == "agg" and st["rv"].get("ak") == "array":
                 return list(st["rv"].get("ops", []))
     return None
+
+
+def loop_heads(f):
+    """{switch block: (none_target, some_target, next_call_block)} for `match iter.next()` loop heads (for loops)"""
+    from .lib import switch_info as _si
+    out = {}
+    for b, t in f.calls():
+        if not is_callee(t, r"Iterator>::next$") or "p" in t["dest"]:
+            continue
+        sb = f.succ(b)[0] if f.succ(b) else None
+        hops = 0
+        while sb is not None and f.term(sb)["k"] != "switch" and len(f.succ(sb)) == 1 and hops < 4:
+            sb = f.succ(sb)[0]
+            hops += 1
+        if sb is None or f.term(sb)["k"] != "switch":
+            continue
+        si = _si(f, sb)
+        if si and si["kind"] == "discr" and si["ty"].startswith("std::option::Option<") and si["place"]["l"] == t["dest"]["l"]:
+            cases = dict((v, tg) for v, tg in f.term(sb)["cases"])
+            if "0" in cases and "1" in cases:
+                out[sb] = (cases["0"], cases["1"], b)
+    return out
+
+
+def iteration_skips(f, head, sinks):
+    """a path through one iteration of the loop at `head` (from the Some edge back to the next() call, or out by return)
+    that touches no block of `sinks`; None if every iteration passes a sink.  Leaving through an error return that
+    propagates is the caller's business (pass those blocks as sinks if accepted)."""
+    none_t, some_t, nb = loop_heads(f)[head]
+    return path_avoiding(f, some_t, lambda x: x == nb or f.term(x)["k"] == "return", lambda x: x in sinks, (), from_succ=False)
